@@ -347,7 +347,7 @@ def pyversion(timeout_ms=None):
     from contracts import pyversion as PV
     ix = extract.Index()
     th, cs = PV.setup(ix)
-    rep = verify.verify_cases(ix, th, PV.NORM, list(PV.cases(th)) + list(PV.bridge_cases(th)), use_contracts=list(cs), contracts=cs, timeout_ms=timeout_ms)
+    rep = verify.verify_cases(ix, th, PV.NORM, list(PV.cases(th)) + list(PV.bridge_cases(th)) + list(PV.list_view_cases(th)), use_contracts=list(cs), contracts=cs, timeout_ms=timeout_ms)
     rep.functions[PV.NORM]["hash"] = ix.func(PV.NORM).source_hash()
     rep.functions[PV.NORM]["mode"] = "verified against its contract"
     return rep
